@@ -802,6 +802,29 @@ def _(T):
     raise Miss("purge loop of find_MAP not found")
 
 
+@extractor("mb_range_rules")
+def _(T):
+    """`if '<key>' in param: self.linked_params_range[param] = [lo, hi]` rules of BaseMultiBandFitter.__init__, in source order"""
+    tree, src = T["multiband.py"]
+    init = find_func(tree, "__init__", cls="BaseMultiBandFitter")
+    rules = []
+    for node in ast.walk(init):
+        if isinstance(node, ast.For):
+            for st in node.body:
+                if isinstance(st, ast.If) and isinstance(st.test, ast.Compare) and isinstance(st.test.ops[0], ast.In) \
+                        and isinstance(st.test.left, ast.Constant) and isinstance(st.test.left.value, str) and st.body \
+                        and isinstance(st.body[0], ast.Assign) and isinstance(st.body[0].value, (ast.List, ast.Tuple)) \
+                        and "linked_params_range" in (ast.get_source_segment(src, st.body[0].targets[0]) or ""):
+                    lo, hi = st.body[0].value.elts
+                    hv = _const_or_pi(hi, src)
+                    if hv is None:
+                        raise Miss("range bound is not a constant")
+                    rules.append([st.test.left.value, fr(num(lo, src)), fr(hv[1]), hv[0] == "pi"])
+    if not rules:
+        raise Miss("no default range rules found")
+    return rules
+
+
 # ----------------------------------------------------------------------------
 # Lean emission
 # ----------------------------------------------------------------------------
@@ -830,6 +853,7 @@ def emit(c):
     A("import PysersicModel.Prob.Loss")
     A("import PysersicModel.Render.Renderers")
     A("import PysersicModel.Prob.Prior")
+    A("import PysersicModel.Prob.MultiBand")
     A("")
     A("namespace Pysersic.Gen")
     A("")
@@ -901,6 +925,10 @@ def emit(c):
     A(f"def nAxLo : Q := {lean_q(rc['n_ax'][0])}")
     A(f"def nAxHi : Q := {lean_q(rc['n_ax'][1])}")
     A(f"def nAxNum : Nat := {rc['n_ax'][2][0]}")
+    A("")
+    A("/-- default physical ranges of linked parameters (multiband.py), substring rules in source order -/")
+    A("def mbRangeRules : List MultiBand.RangeRule :=")
+    A("  " + lean_list([f"⟨{lean_str(r[0])}, {lean_q(r[1])}, {lean_q(r[2])}, {b(r[3])}⟩" for r in c["mb_range_rules"]]))
     A("")
     mf = c["map_filter"]
     A("/-- the if / elif / elif chain over site names in BaseFitter.find_MAP (pysersic.py), translated from the source -/")
